@@ -197,6 +197,9 @@ func (g *gen) composedLiteral() string {
 	over := ""
 	if g.rng.Chance(1, 4) {
 		over = []string{"\\\"", "\\'"}[g.rng.Intn(2)]
+		if g.o.GoEscapes {
+			over = "\\\"" // \' is no escape sequence of a Go string
+		}
 	}
 	n := g.rng.Range(1, 6)
 	var sb strings.Builder
